@@ -16,7 +16,7 @@ def claim(pid, category, technique, text, note, ref):
 
 claim(
     "C19", "exploration",
-    "exhaustive grid enumeration over the implementation's own thresholds + Hypothesis integers, numpy.iinfo oracle",
+    "exhaustive grid enumeration over the implementation's own thresholds + Hypothesis integers, numpy.iinfo oracle; the same oracle on to_array() default dtypes and INDX coordinate words",
     "Every (max, min) pair of a grid built from all powers of two +-1 and the integer constants harvested "
     "from the current fit_dtype code object is compared with the narrowest sufficient dtype derived from "
     "numpy.iinfo; Hypothesis integers probe cell interiors. The grid is complete for the partition the "
@@ -29,7 +29,7 @@ claim(
 
 claim(
     "C08", "exploration",
-    "bounded exhaustive enumeration of operand pairs / tuples + Hypothesis gap-encoded arrays, Python set-algebra oracle",
+    "bounded exhaustive enumeration of operand pairs / tuples (incl. lopsided operand sizes and all memory layouts) + Hypothesis gap-encoded arrays + Atheris campaign, Python set-algebra oracle",
     "Every ordered pair of subsets of three 7-value (quick) / 10-value (thorough) universes, including both ends of "
     "the uint32 range, is run through all three kernels and compared with Python set algebra; multi-way unions are "
     "enumerated over all 3- and 4-tuples of subsets; Hypothesis adds long arrays with explicit overlap patterns, memory "
@@ -39,7 +39,7 @@ claim(
 )
 claim(
     "C09", "exploration",
-    "the C08 input enumeration executed under two observers: bounds-checked Cython rebuild (in-process IndexError) and clang AddressSanitizer build (child process)",
+    "the C08 input enumeration (all operand layouts incl. negative strides, lopsided sizes) executed under two observers: bounds-checked Cython rebuild (in-process IndexError) and clang AddressSanitizer build (child process), plus an Atheris campaign on the ASan build",
     "Out-of-range accesses depend on which operand runs out first, so the deciding step is the generated / enumerated "
     "input search of C08 (every exhaustion position for up to 7 (quick) / 10 (thorough) elements per side); the bounds-checked "
     "rebuild turns any out-of-range memoryview index into an exception, the ASan build of the unmodified source guards "
@@ -51,7 +51,7 @@ claim(
 
 claim(
     "C10", "exploration",
-    "Hypothesis-generated entries dicts across all word-size classes, save -> load round trip through a real file",
+    "Hypothesis-generated entries dicts across all word-size classes and array layouts, save -> load round trip through a real file; the same round trip for every index the C06 state machine produces; Atheris campaign",
     "Random entries dicts (arity 1..4, coordinates and common drawn independently from the four word-size classes and "
     "their boundaries, row ids up to 2^32-1, empty arrays, no entries) are saved and loaded back; every component "
     "(common, key tuples and their element types, arrays, dtype) is compared and the index is rebuilt and validated.",
@@ -60,7 +60,7 @@ claim(
 )
 claim(
     "C11", "exploration",
-    "differential testing against an independent INDX encoder/decoder written from the format docstring, both directions, plus duck-typed size probes",
+    "differential testing against an independent INDX encoder/decoder written from the format docstring, both directions (every legal word-size combination, totals beyond what narrow words can count), duck-typed size probes, Atheris campaign incl. raw-bytes mode",
     "Bytes written by save are decoded by an independent decoder and re-encoded by an independent encoder and must match "
     "byte for byte; the library's loader is fed files produced by the independent encoder with every legal word-size "
     "combination (including ones the saver never chooses); payload-size arithmetic is probed across 2^30 and 2^32 with "
@@ -70,7 +70,7 @@ claim(
 )
 claim(
     "C12", "fault_enumeration",
-    "exhaustive cut-point enumeration (every prefix length of every generated file) with 'load must raise' oracle",
+    "exhaustive cut-point enumeration (every prefix length of every generated file, written by save or laid out by the independent encoder in any documented word size) with 'load must raise' oracle",
     "For every generated file, every strict prefix (all k in [0, len)) is materialised by truncating the real file and "
     "loaded; any return is a violation. The fault space per file is enumerated completely; files are sampled by Hypothesis.",
     "Fault model = the file is a strict prefix of the intended bytes (as the property states).",
@@ -167,7 +167,7 @@ claim(
 )
 claim(
     "C07", "exploration",
-    "the C06 state machine with a well-formedness invariant (library validator + conditions it does not check) after every step",
+    "the C06 state machine with a well-formedness invariant (library validator + conditions it does not check) after every step; the same predicate on every from_array option combination",
     "After every step of random histories (incl. construction from arrays and INDX reloads) each live index must pass the "
     "comprehensive validator and the range / arity / non-emptiness / consequence conditions (abscissae, sparsity, inferred "
     "cube shape).",
@@ -176,7 +176,7 @@ claim(
 )
 claim(
     "C15", "exploration",
-    "the C06 state machine with pairwise equality invariants over live indexes reached by different histories + most-frequent-value check",
+    "the C06 state machine with pairwise equality invariants over live indexes reached by different histories + most-frequent-value check after every normalisation and for from_array (counts, many-to-one mappings)",
     "After every library-chosen normalisation the common value's count must be the maximum; after every step ==, != are "
     "checked against (shape, common, dense content) for every ordered pair of live indexes, against directly built twins "
     "and against non-index objects.",
